@@ -24,7 +24,7 @@ from ..runs import run_function
 from ..scenarios import core_impl, recv_sym
 from ..values import ARG, CLS, FRESH, IMM, RECV, Const, Event, Sym, vrepr
 from . import boolfn
-from .base import get_ctx, pmap, walk_own
+from .base import get_ctx, pmap, walk_own, walk_own_all
 from .c08 import attr_class_fn
 
 META = {
@@ -109,7 +109,7 @@ def _check_main(ctx, rep: Report):
     # ---- POST
     rep.rules["C09.POST"] = "order of events on every normal constructor path; non-trivial = distinct event sequences"
     fi = core_impl(ctx.H, "init").impl
-    sites = [n for n in walk_own(fi.node) if isinstance(n, ast.Call) and ast.unparse(n.func).endswith("post_init")]
+    sites = [n for _f, n in walk_own_all(ctx.p, fi) if isinstance(n, ast.Call) and ast.unparse(n.func).endswith("post_init")]
     rep.oblige("C09.POST", "single call site", len(sites) == 1, f"{len(sites)} call sites")
     if len(sites) != 1:
         rep.violate(Violation("C09.POST", f"C09.POST|sites={len(sites)}", f"InitMethod.init has {len(sites)} call sites of post_init (expected exactly one)",
@@ -217,7 +217,7 @@ def _check_main(ctx, rep: Report):
 
     # ---- OVF
     rep.rules["C09.OVF"] = "truth table of the overflow filter over {key is a managed attribute, key is the overflow attribute}"
-    comps = [n for n in walk_own(fi.node) if isinstance(n, ast.DictComp)]
+    comps = [n for _f, n in walk_own_all(ctx.p, fi) if isinstance(n, ast.DictComp)]
     ok = False
     detail = "the overflow dictionary is not filtered at all"
     conds = None
@@ -225,7 +225,7 @@ def _check_main(ctx, rep: Report):
         conds = comps[0].generators[0].ifs
     else:
         # explicit loop form: for k, v in kwargs.items(): [guards] d[k] = v
-        for loop in walk_own(fi.node):
+        for _f, loop in walk_own_all(ctx.p, fi):
             if isinstance(loop, ast.For) and "kwargs" in ast.unparse(loop.iter) and isinstance(loop.target, ast.Tuple):
                 kname = ast.unparse(loop.target.elts[0])
 
@@ -269,10 +269,21 @@ def _check_main(ctx, rep: Report):
     b = m[0].node
     src = ast.unparse(b)
     bad = []
-    i_arg, i_attrs = src.find(".with_arg(spec_class_key"), src.find(".with_spec_attrs_for(self.spec_cls")
+    from .c17 import _chain, _dealias
+    chains = _chain(b)
+    if len(chains) != 1:
+        raise AnalysisError(f"C09.SIG: {len(chains)} builder chains found in InitMethod.build_method")
+    i_arg = i_attrs = -1
+    key_link = None
+    for i_, (name_, a_, kw_) in enumerate(chains[0]):
+        first = a_[0] if a_ else kw_.get("name")
+        if name_ == "with_arg" and first is not None and ast.unparse(first) == "spec_class_key" and i_arg < 0:
+            i_arg, key_link = i_, kw_
+        if name_ == "with_spec_attrs_for" and a_ and _dealias(b, a_[0]) == "self.spec_cls" and i_attrs < 0:
+            i_attrs = i_
     if i_arg < 0 or i_attrs < 0 or i_arg > i_attrs:
         bad.append("the key parameter is not added before the attribute keywords of this class")
-    if "only_if=spec_class_key" not in src:
+    if key_link is None or "only_if" not in key_link or ast.unparse(key_link["only_if"]) != "spec_class_key":
         bad.append("the key parameter is added even when no key is configured")
     ifexps = [n for n in ast.walk(b) if isinstance(n, ast.IfExp) and "has_default" in ast.unparse(n.test)]
     if not ifexps:
